@@ -104,12 +104,23 @@ fn out_files(dir: &std::path::Path, tag: &str) -> Vec<(String, String)> {
 }
 
 pub fn explore(ctx: &Ctx, shard: usize, n: usize) -> Report {
-    let rep = drive::cases(ctx, shard, n, RULE, 0x20, 400, 8000, |r, rep, i| {
+    let seed = ctx.seed;
+    let rep = drive::cases(ctx, shard, n, RULE, STREAM, 400, 8000, |r, rep, i| one(r, rep, i, shard, seed));
+    cleanup_root("c20", shard);
+    rep
+}
+
+const STREAM: u64 = 0x20;
+
+/// one generated project tree: every random choice (tree, serialisation, tag picked, cyclic variant) comes from `r`,
+/// so (VERIF_SEED, case index) reproduces the case exactly - which is what a replay file records under "regen"
+fn one(r: &mut Rng, rep: &mut Report, i: u64, shard: usize, seed: u64) {
+    {
         let tree = gen_tree(r);
         let dir = scratch("c20", shard, i);
         let conf = config_text(&tree, r, &[]);
         write_tree(&dir, &tree, r, &conf);
-        let files = || json!({"project.asca": conf, "rules": tree.rule_files.iter().map(|(n, g)| json!({"file": n, "groups": g.iter().map(|x| json!({"name": x.name, "rule": x.rule})).collect::<Vec<_>>()})).collect::<Vec<_>>(), "words": tree.word_files.iter().map(|(n, w)| json!({"file": n, "words": w})).collect::<Vec<_>>()});
+        let files = || json!({"regen": {"seed": seed, "index": i}, "project.asca": conf, "rules": tree.rule_files.iter().map(|(n, g)| json!({"file": n, "groups": g.iter().map(|x| json!({"name": x.name, "rule": x.rule})).collect::<Vec<_>>()})).collect::<Vec<_>>(), "words": tree.word_files.iter().map(|(n, w)| json!({"file": n, "words": w})).collect::<Vec<_>>()});
         rep.eval(1);
         // ---- all tags
         let ran = run_asca(&dir, &["seq", ".", "-o", "-y"]);
@@ -172,22 +183,24 @@ pub fn explore(ctx: &Ctx, shard: usize, n: usize) -> Report {
                 write_tree(&d3, &tree, r, &c3);
                 let ran = match &req { Some(t) => run_asca(&d3, &["seq", ".", "-t", t, "-o", "-y"]), None => run_asca(&d3, &["seq", ".", "-o", "-y"]) };
                 rep.eval(1);
-                if ran.timed_out { rep.violation(format!("cycle:{vname}:does-not-terminate"), || json!({"case": {"project.asca": c3}})); }
-                else if ran.code == Some(0) || d3.join("out").exists() { rep.violation(format!("cycle:{vname}:not-rejected"), || json!({"case": {"project.asca": c3}, "code": ran.code, "stdout": ran.stdout.chars().take(800).collect::<String>(), "wrote_out_dir": d3.join("out").exists()})); }
-                else if ran.stderr.contains("VERIF_BUDGET") || ran.code.map(|c| c > 1).unwrap_or(true) { rep.violation(format!("cycle:{vname}:crashes-instead-of-reporting"), || json!({"case": {"project.asca": c3}, "code": ran.code, "stderr": ran.stderr.chars().take(600).collect::<String>()})); }
+                if ran.timed_out { rep.violation(format!("cycle:{vname}:does-not-terminate"), || json!({"case": {"regen": {"seed": seed, "index": i}, "project.asca": c3}})); }
+                else if ran.code == Some(0) || d3.join("out").exists() { rep.violation(format!("cycle:{vname}:not-rejected"), || json!({"case": {"regen": {"seed": seed, "index": i}, "project.asca": c3}, "code": ran.code, "stdout": ran.stdout.chars().take(800).collect::<String>(), "wrote_out_dir": d3.join("out").exists()})); }
+                else if ran.stderr.contains("VERIF_BUDGET") || ran.code.map(|c| c > 1).unwrap_or(true) { rep.violation(format!("cycle:{vname}:crashes-instead-of-reporting"), || json!({"case": {"regen": {"seed": seed, "index": i}, "project.asca": c3}, "code": ran.code, "stderr": ran.stderr.chars().take(600).collect::<String>()})); }
                 else { rep.obs("cyclic_configs_rejected", 1); }
                 cleanup(&d3);
             }
         }
         cleanup(&dir);
-    });
-    cleanup_root("c20", shard);
-    rep
+    }
 }
 
-pub fn replay(_ctx: &Ctx, _v: &Value) -> Report {
-    // project trees are regenerated from (seed, case index); a witness keeps its files for inspection
+pub fn replay(_ctx: &Ctx, v: &Value) -> Report {
+    // the project tree is regenerated from (seed, case index) and judged again; the witness also keeps its files for inspection
     let mut rep = Report::new(RULE);
-    rep.notes.push("C20 witnesses are inspected from the files recorded in the replay; re-run the check with the same VERIF_SEED to reproduce".into());
+    let g = &v["regen"];
+    match (g["seed"].as_u64(), g["index"].as_u64()) {
+        (Some(seed), Some(i)) => { let mut r = Rng::new(seed, (STREAM << 40) ^ i); one(&mut r, &mut rep, i, 9000, seed); cleanup_root("c20", 9000); }
+        _ => rep.notes.push("witness without a `regen` member: cannot be regenerated".into()),
+    }
     rep
 }
